@@ -137,7 +137,9 @@ def save_performance_midi(
             f" or a list of  `PerformedPart` instances but is {type(performance_data)}"
         )
 
-    # plain Python integers (10**6 * ppq overflows 32-bit numpy integers)
+    # plain Python integers (10**6 * ppq overflows 32-bit numpy integers); the
+    # times are converted to Python floats below for the same reason (single
+    # precision times would be multiplied in single precision)
     ppq = int(ppq)
     mpq = int(mpq)
 
@@ -146,7 +148,7 @@ def save_performance_midi(
 
         for c in performed_part.meta_other:
             track = c.get("track", 0)
-            t = int(np.round(10**6 * ppq * c["time"] / mpq))
+            t = int(np.round(10**6 * ppq * float(c["time"]) / mpq))
             msg_info = dict(
                 [
                     (key, val)
@@ -165,7 +167,7 @@ def save_performance_midi(
 
         for c in performed_part.key_signatures:
             track = c.get("track", 0)
-            t = int(np.round(10**6 * ppq * c["time"] / mpq))
+            t = int(np.round(10**6 * ppq * float(c["time"]) / mpq))
             track_events[track][t].append(
                 MetaMessage(
                     type="key_signature",
@@ -178,7 +180,7 @@ def save_performance_midi(
 
         for c in performed_part.time_signatures:
             track = c.get("track", 0)
-            t = int(np.round(10**6 * ppq * c["time"] / mpq))
+            t = int(np.round(10**6 * ppq * float(c["time"]) / mpq))
             track_events[track][t].append(
                 MetaMessage(
                     type="time_signature",
@@ -190,7 +192,7 @@ def save_performance_midi(
         for c in performed_part.controls:
             track = c.get("track", 0)
             ch = c.get("channel", 1)
-            t = int(np.round(10**6 * ppq * c["time"] / mpq))
+            t = int(np.round(10**6 * ppq * float(c["time"]) / mpq))
             track_events[track][t].append(
                 Message(
                     "control_change",
@@ -203,8 +205,8 @@ def save_performance_midi(
         for n in performed_part.notes:
             track = n.get("track", 0)
             ch = n.get("channel", 1)
-            t_on = int(np.round(10**6 * ppq * n["note_on"] / mpq))
-            t_off = int(np.round(10**6 * ppq * n["note_off"] / mpq))
+            t_on = int(np.round(10**6 * ppq * float(n["note_on"]) / mpq))
+            t_off = int(np.round(10**6 * ppq * float(n["note_off"]) / mpq))
             vel = n.get("velocity", default_velocity)
             track_events[track][t_on].append(
                 Message("note_on", note=n["midi_pitch"], velocity=vel, channel=ch)
@@ -231,7 +233,7 @@ def save_performance_midi(
         for p in performed_part.programs:
             track = p.get("track", 0)
             ch = p.get("channel", 1)
-            t = int(np.round(10**6 * ppq * p["time"] / mpq))
+            t = int(np.round(10**6 * ppq * float(p["time"]) / mpq))
             track_events[track][t].append(
                 Message("program_change", program=int(p["program"]), channel=ch)
             )
